@@ -40,7 +40,7 @@ DESCRIBE = {
     "assumptions": ["(a), (d), (e) and (c) for the optimisation: bit-equality of per-individual outputs; (b) and (c) for the samplers (batched BLAS products may round a row differently at another position): rtol 1e-5 on terms and identical decisions unless the uniform is within 1e-4 of the ratio",
                     "totals compared with the sum of per-individual terms with rtol 1e-5", "in leg (e) OS scheduling of workers is not controlled; jobs share no memory and results are collected in submission order"],
 }
-KINDS = ["logistic_diag", "logistic_scalar", "logistic_uni", "logistic_diag_nosrc", "linear_diag", "shared_speed", "joint_multi", "logistic_binary"]
+KINDS = ["logistic_diag", "logistic_scalar", "logistic_uni", "logistic_diag_nosrc", "linear_diag", "shared_speed", "joint_multi", "joint_ev2", "logistic_binary"]
 
 
 class IdWorld(persosim.PersoWorld):
